@@ -218,10 +218,11 @@ def verify_unit(repo, unit_dir, workdir, canary=True, rlimit=None):
     out = dict(unit=unit, undecided=[], failures=[], fns=[], rewrites=[], dropped={}, assumptions=[], canary={}, wall=0.0)
     t0 = time.time()
     pre_relaxed = []
+    auto_items = out.setdefault('auto_items', [])
     try:
         while True:
             try:
-                g, text = extract.generate(repo, tpl, relaxed=pre_relaxed)
+                g, text = extract.generate(repo, tpl, relaxed=pre_relaxed, auto_items=auto_items)
                 break
             except extract.Undecided as e:
                 # a position-based annotation (closure / loop / ghost anchor) no longer finds its place: the function
@@ -254,6 +255,38 @@ def verify_unit(repo, unit_dir, workdir, canary=True, rlimit=None):
     open(os.path.join(workdir, unit + '.verus.json'), 'w').write(res['stdout'])
     out['cmd'] = res['cmd']
     pr = parse_verus(res, g.fns, text.split('\n'))
+    # AUTO items: an extracted function refers to a file-level const/static of its own source file that the template
+    # does not list (e.g. one introduced by the change under test): copy the item and run again (at most 4 rounds)
+    for _round in range(4):
+        missing = []
+        for u in pr['undecided']:
+            m = re.search(r'cannot find value `(\w+)` in this scope @ line (\d+)', u)
+            if not m:
+                continue
+            ln = int(m.group(2))
+            for f in g.fns:
+                if f['gen_start'] <= ln <= f['body'][1]:
+                    try:
+                        sfm = extract.L.mask(open(os.path.join(repo, f['file']), encoding='utf-8').read())
+                    except OSError:
+                        break
+                    for kind in ('const', 'static'):
+                        if extract.L.find_item(sfm, kind, m.group(1), 0, len(sfm)) and (f['file'], kind, m.group(1)) not in auto_items:
+                            missing.append((f['file'], kind, m.group(1)))
+                            break
+                    break
+        if not missing:
+            break
+        auto_items.extend(sorted(set(missing)))
+        try:
+            g, text = extract.generate(repo, tpl, relaxed=pre_relaxed, auto_items=auto_items)
+        except (extract.Undecided, extract.L.LexError):
+            break
+        open(path, 'w').write(text)
+        out['fns'], out['items'], out['rewrites'] = g.fns, g.items, g.rewrites
+        res = run_verus(path, workdir, rlimit=rlimit)
+        out['cmd'] = res['cmd']
+        pr = parse_verus(res, g.fns, text.split('\n'))
     # rlimit escalation: a query that ran out of resources is re-run once with five times the limit before the run is
     # called undecided (failing proofs of changed code tend to be the expensive ones)
     if pr['undecided'] and all('resource limit' in u for u in pr['undecided']):
@@ -281,7 +314,7 @@ def verify_unit(repo, unit_dir, workdir, canary=True, rlimit=None):
         relax = sorted({f['label'] for ln in bad_lines for f in g.fns if f['gen_start'] <= ln <= f['body'][1]})
         if relax and len(relax) <= 4:
             try:
-                g2, text2 = extract.generate(repo, tpl, relaxed=relax)
+                g2, text2 = extract.generate(repo, tpl, relaxed=relax, auto_items=auto_items)
                 path2 = os.path.join(workdir, unit + '_relaxed.rs')
                 open(path2, 'w').write(text2)
                 res2 = run_verus(path2, workdir, rlimit=rlimit)
@@ -306,7 +339,7 @@ def verify_unit(repo, unit_dir, workdir, canary=True, rlimit=None):
     out['verified_fns'] = [f['label'] for f in g.fns if f['label'] not in failed] if not pr['undecided'] else []
     if canary and not out['undecided']:
         try:
-            gc, ctext = extract.generate(repo, tpl, canary=True, relaxed=out.get('relaxed_fns', []))
+            gc, ctext = extract.generate(repo, tpl, canary=True, relaxed=out.get('relaxed_fns', []), auto_items=auto_items)
         except extract.Undecided as e:
             out['undecided'].append('canary generation: ' + str(e))
             gc = None
